@@ -1069,8 +1069,17 @@ def parse_and_group(src_paths, group_by=default_group_keys, extractor=None,
             else:
                 raise
 
-        # Warn and skip non-image data sets
-        if not is_image(dcm):
+        # Warn and skip non-image data sets. Elements are parsed lazily so a
+        # damaged file may only fail here, treat that like a read error
+        try:
+            has_image = is_image(dcm)
+        except Exception as e:
+            if warn_on_except:
+                warnings.warn('Error reading file %s: %s' % (dcm_path, str(e)))
+                continue
+            else:
+                raise
+        if not has_image:
             warnings.warn("Skipping non-image data set: %s" % dcm_path)
             continue
 
